@@ -366,12 +366,30 @@ func runC03(r *Run, verifDir string) {
 				ea = c
 			}
 		})
+		var a []ssa.Value
 		if ea == nil {
-			r.Bad("C03.T3", key, fn.Pos(), "%s does not write through encodeAppendRightPadded: text and byte strings are right-padded", m)
-			continue
+			// the helper inlined into the writer: encodeAppend(tag, type, length, f) followed by pad(padLen, padVal)
+			var app, pd *ssa.Call
+			allInstrs(fn, func(in ssa.Instruction) {
+				if c, ok := in.(*ssa.Call); ok {
+					switch id := callID(&c.Call); {
+					case id.is(ttlvPath, "ttlvWriter", "encodeAppend"):
+						app = c
+					case id.is(ttlvPath, "ttlvWriter", "pad"):
+						pd = c
+					}
+				}
+			})
+			if app == nil || pd == nil || !dominatesInstr(app, pd) || len(pd.Call.Args) < 2 {
+				r.Bad("C03.T3", key, fn.Pos(), "%s does not write through encodeAppendRightPadded: text and byte strings are right-padded", m)
+				continue
+			}
+			ea = app
+			a = append(append([]ssa.Value{}, app.Call.Args...), pd.Call.Args[1:]...)
+		} else {
+			a = ea.Call.Args
 		}
 		// arguments by role (enc, tag, type code, length, pad length, [pad byte], value closure), whatever their number
-		a := ea.Call.Args
 		var tyArg, lenArg, padArg, pvArg, fnArg ssa.Value
 		for i, x := range a {
 			if i < 2 {
@@ -524,6 +542,9 @@ func runC03(r *Run, verifDir string) {
 						if y, ok := lenOperand(sum.X); ok && extOf(y, 0) && extOf(sum.Y, 2) {
 							lenOK = true
 						}
+						if y, ok := lenOperand(sum.Y); ok && extOf(y, 0) && extOf(sum.X, 2) {
+							lenOK = true // padLen + len(bytes)
+						}
 					}
 					padFirst := false
 					if mc, ok := a[len(a)-1].(*ssa.MakeClosure); ok {
@@ -628,6 +649,9 @@ func runC03(r *Run, verifDir string) {
 				if sum, ok := a[3].(*ssa.BinOp); ok && sum.Op == token.ADD {
 					if y, ok := lenOperand(sum.X); ok && ext(y, 0) && ext(sum.Y, 2) {
 						lenOK = true
+					}
+					if y, ok := lenOperand(sum.Y); ok && ext(y, 0) && ext(sum.X, 2) {
+						lenOK = true // padLen + len(bytes)
 					}
 				}
 				switch {
